@@ -231,9 +231,15 @@ func decodeBytecodeV2(bc *Bytecode, r *bytes.Buffer) error {
 				return err
 			}
 
-			sz := obj.(ugo.Int)
+			sz, ok := obj.(ugo.Int)
+			if !ok {
+				return errUnexpectedType("FileSet size", obj)
+			}
 			if sz <= 0 {
 				continue
+			}
+			if int64(sz) > int64(r.Len()) {
+				return io.ErrUnexpectedEOF
 			}
 
 			data := make([]byte, sz)
@@ -252,21 +258,33 @@ func decodeBytecodeV2(bc *Bytecode, r *bytes.Buffer) error {
 				return err
 			}
 
-			bc.Main = f.(*ugo.CompiledFunction)
+			main, ok := f.(*ugo.CompiledFunction)
+			if !ok {
+				return errUnexpectedType("Main", f)
+			}
+			bc.Main = main
 		case 2:
 			obj, err := DecodeObject(r)
 			if err != nil {
 				return err
 			}
 
-			bc.Constants = obj.(ugo.Array)
+			constants, ok := obj.(ugo.Array)
+			if !ok {
+				return errUnexpectedType("Constants", obj)
+			}
+			bc.Constants = constants
 		case 3:
 			num, err := DecodeObject(r)
 			if err != nil {
 				return err
 			}
 
-			bc.NumModules = int(num.(ugo.Int))
+			n, ok := num.(ugo.Int)
+			if !ok {
+				return errUnexpectedType("NumModules", num)
+			}
+			bc.NumModules = int(n)
 		default:
 			return errors.New("unknown field:" + strconv.Itoa(int(field)))
 		}
@@ -297,7 +315,7 @@ func DecodeObject(r io.Reader) (ugo.Object, error) {
 			return nil, err
 		}
 
-		buf := make([]byte, 2+size)
+		buf := make([]byte, 2+int(size))
 		buf[0] = btype
 		buf[1] = size
 		if size > 0 {
@@ -351,15 +369,9 @@ func DecodeObject(r io.Reader) (ugo.Object, error) {
 			return nil, errors.New("negative value")
 		}
 
-		n := 1 + len(readBytes)
-		buf := make([]byte, n+int(value))
-		buf[0] = btype
-		copy(buf[1:], readBytes)
-
-		if value > 0 {
-			if _, err = io.ReadFull(r, buf[n:]); err != nil {
-				return nil, err
-			}
+		buf, err := readPayload(r, btype, readBytes, value)
+		if err != nil {
+			return nil, err
 		}
 
 		switch btype {
@@ -667,12 +679,12 @@ func (o *String) UnmarshalBinary(data []byte) error {
 		return nil
 	}
 
-	ub := 1 + offset + int(size)
-	if len(data) < ub {
+	body, ok := payload(data, offset, size)
+	if !ok {
 		return errors.New("invalid ugo.String data size")
 	}
 
-	*o = String(data[1+offset : ub])
+	*o = String(body)
 	return nil
 }
 
@@ -709,12 +721,12 @@ func (o *Bytes) UnmarshalBinary(data []byte) error {
 		return nil
 	}
 
-	ub := 1 + offset + int(size)
-	if len(data) < ub {
+	body, ok := payload(data, offset, size)
+	if !ok {
 		return errors.New("invalid ugo.Bytes data size")
 	}
 
-	*o = []byte(string(data[1+offset : ub]))
+	*o = []byte(string(body))
 	return nil
 }
 
@@ -767,18 +779,22 @@ func (o *Array) UnmarshalBinary(data []byte) error {
 	if size <= 0 {
 		return nil
 	}
-	ub := 1 + offset + int(size)
-	if len(data) < ub {
+	body, ok := payload(data, offset, size)
+	if !ok {
 		return errors.New("invalid ugo.Array data size")
 	}
 
-	rd := bytes.NewReader(data[1+offset : ub])
+	rd := bytes.NewReader(body)
 	var vi varintConv
 	vi.reader = rd
 
 	length, err := vi.read()
 	if err != nil {
 		return err
+	}
+	// every element takes at least one byte
+	if length < 0 || length > int64(rd.Len()) {
+		return errors.New("invalid ugo.Array length")
 	}
 
 	arr := make([]ugo.Object, 0, int(length))
@@ -842,15 +858,20 @@ func (o *Map) UnmarshalBinary(data []byte) error {
 		return nil
 	}
 
-	if len(data) < 1+offset+int(size) {
+	body, ok := payload(data, offset, size)
+	if !ok {
 		return errors.New("invalid ugo.Map data size")
 	}
 
-	rd := bytes.NewReader(data[1+offset : 1+offset+int(size)])
+	rd := bytes.NewReader(body)
 	strBuf := bytes.NewBuffer(nil)
 	var vi varintConv
 	vi.reader = rd
 	m := *o
+	if m == nil {
+		m = Map{}
+		*o = m
+	}
 
 	for rd.Len() > 0 {
 		value, err := vi.read()
@@ -991,7 +1012,12 @@ func (o *CompiledFunction) UnmarshalBinary(data []byte) error {
 		return nil
 	}
 
-	rd := bytes.NewReader(data[1+offset : 1+offset+int(size)])
+	body, ok := payload(data, offset, size)
+	if !ok {
+		return errors.New("invalid ugo.CompiledFunction data size")
+	}
+
+	rd := bytes.NewReader(body)
 	var vi varintConv
 	vi.reader = rd
 
@@ -1018,7 +1044,11 @@ func (o *CompiledFunction) UnmarshalBinary(data []byte) error {
 			if err != nil {
 				return err
 			}
-			o.Instructions = obj.(ugo.Bytes)
+			insts, ok := obj.(ugo.Bytes)
+			if !ok {
+				return errUnexpectedType("Instructions", obj)
+			}
+			o.Instructions = insts
 		case 3:
 			o.Variadic = true
 		case 4:
@@ -1027,6 +1057,11 @@ func (o *CompiledFunction) UnmarshalBinary(data []byte) error {
 			length, err := vi.read()
 			if err != nil {
 				return err
+			}
+
+			// every key and every value takes at least one byte
+			if length < 0 || length > int64(rd.Len()) {
+				return errors.New("invalid ugo.CompiledFunction source map length")
 			}
 
 			sz := int(length / 2)
@@ -1197,6 +1232,11 @@ func (sf *SourceFile) UnmarshalBinary(data []byte) error {
 		return err
 	}
 
+	// every line offset takes at least one byte
+	if v < 0 || v > int64(rd.Len()) {
+		return errors.New("invalid SourceFile lines length")
+	}
+
 	length := int(v)
 
 	lines := make([]int, length)
@@ -1259,6 +1299,11 @@ func (sfs *SourceFileSet) UnmarshalBinary(data []byte) error {
 		return err
 	}
 
+	// every file takes at least one byte
+	if v < 0 || v > int64(rd.Len()) {
+		return errors.New("invalid SourceFileSet files length")
+	}
+
 	length := int(v)
 	files := make([]*parser.SourceFile, length)
 
@@ -1266,6 +1311,9 @@ func (sfs *SourceFileSet) UnmarshalBinary(data []byte) error {
 		v, err = vi.read()
 		if err != nil {
 			return err
+		}
+		if v < 0 || v > int64(rd.Len()) {
+			return errors.New("invalid SourceFile data size")
 		}
 		data := make([]byte, v)
 		if _, err = io.ReadFull(rd, data); err != nil {
@@ -1284,6 +1332,49 @@ func (sfs *SourceFileSet) UnmarshalBinary(data []byte) error {
 
 	sfs.Files = files
 	return nil
+}
+
+func errUnexpectedType(what string, got ugo.Object) error {
+	return fmt.Errorf("decode error: unexpected type for %s: %T", what, got)
+}
+
+// payload returns the size bytes of data that follow the type byte and the
+// offset bytes long size prefix, if data is long enough.
+func payload(data []byte, offset int, size int64) ([]byte, bool) {
+	start := 1 + offset
+	if start > len(data) || size < 0 || size > int64(len(data)-start) {
+		return nil, false
+	}
+	return data[start : start+int(size)], true
+}
+
+// readPayload returns btype, sizeBytes and the next size bytes of r in one
+// buffer. The buffer is allocated up front only if r is known to hold that many
+// bytes, otherwise it grows as data arrives, so a corrupt size cannot make the
+// decoder allocate more than it can read.
+func readPayload(r io.Reader, btype byte, sizeBytes []byte, size int64) ([]byte, error) {
+	n := 1 + len(sizeBytes)
+	if l, ok := r.(interface{ Len() int }); ok {
+		if size > int64(l.Len()) {
+			return nil, io.ErrUnexpectedEOF
+		}
+		buf := make([]byte, n+int(size))
+		buf[0] = btype
+		copy(buf[1:], sizeBytes)
+		_, err := io.ReadFull(r, buf[n:])
+		return buf, err
+	}
+
+	var buf bytes.Buffer
+	buf.WriteByte(btype)
+	buf.Write(sizeBytes)
+	if _, err := io.CopyN(&buf, r, size); err != nil {
+		if err == io.EOF {
+			err = io.ErrUnexpectedEOF
+		}
+		return nil, err
+	}
+	return buf.Bytes(), nil
 }
 
 func readByteFrom(r io.Reader) (byte, error) {
